@@ -305,7 +305,8 @@ def main(argv):
         ctx.count("composed-model-calls", ncalls)
         for b in bad[:5]:
             ctx.disagreement("composed Lean model PooledClient∘Client differs from the real PooledClient", b, theorem="C09_pooled_run_projection")
-    # composed model HashClient ∘ PooledClient ∘ Client (Pymc/Model/HashPooledCall.lean): every pool of a real HashClient(use_pooling=True)
+    # composed model HashClient ∘ PooledClient ∘ Client (Pymc/Model/HashPooledCall.lean, HashPooledCallMany.lean; single- and multi-key calls):
+    # every pool of a real HashClient(use_pooling=True)
     # (per registered PooledClient: idle clients with their sockets, sockets closed in order, checked-out count) after every call
     if ctx.lean.build_ok:
         import hashpooledcall_diff
@@ -313,7 +314,7 @@ def main(argv):
         ctx.count("composed-hashpooled-model-calls", ncalls)
         for b in bad[:5]:
             ctx.disagreement("composed Lean model HashClient∘PooledClient∘Client differs from the real HashClient(use_pooling=True)", b,
-                             theorem="C09_hashpooled_pool_invariants")
+                             theorem="C09_hashpooled_many_pool_conservation" if b.get("multi") else "C09_hashpooled_pool_invariants")
     # ---- overlapping callers (the statement speaks of every sequence of operations; callers of one PooledClient overlap in time): the real
     #      ObjectPool under the deterministic scheduler of C08 (harness/sched.py), with an idle timeout (5) and calls that last longer than it
     #      (`useLong`, 10).  Every schedule with at most one pre-emption (two in the thorough tier) at the line-level yield points of pool.py.
